@@ -628,6 +628,181 @@ def dispatch_cases():
     return cs
 
 
+def entry_term(i, j, node):
+    return '{| en_row := %d; en_col := %d; en_op := %s |}' % (i, j, node.coq)
+
+
+def _parts_result(reg, r):
+    """iout-like description of a product (or flat) result: list of (identity, data)."""
+    import odl
+    parts = list(r) if isinstance(r.space, odl.ProductSpace) else [r]
+    out = []
+    for p in parts:
+        i = reg.index_of(p)
+        out.append('(%s, %s)' % ('None' if i is None else '(Some %d%%nat)' % i, oqs(np.asarray(p).ravel())))
+    return 'POk %s' % C.lst(out)
+
+
+def pspace_cases(rng, tier):
+    """ProductSpaceOperator / Diagonal / Broadcast / Reduction / ComponentProjection(Adjoint) against
+    C03/PModel.v: in-place with NaN-filled or random parts of out, out-of-place, non-member arguments."""
+    import odl
+    cs = C.CaseSet('pspace', ['C03.Syntax', 'Gen.C03Bodies', 'C03.Poison', 'C03.Model', 'C03.PModel', 'C03.Corr'],
+                   'pcheck', 'pcase')
+    N = 90 if tier == 'quick' else 600
+    kinds = ['pso', 'pso', 'pso', 'diag', 'broadcast', 'reduction', 'proj', 'projadj']
+    modes = ['oop', 'ip_nan', 'ip_rand', 'ip_nan', 'bad_x', 'bad_out']
+    for k in range(N):
+        kind = kinds[k % len(kinds)]
+        mode = modes[(k // len(kinds)) % len(modes)]
+        big = rng.random() < 0.12
+        reg = Reg()
+
+        def sp():
+            return (rng.choice([100, 101]) if big else rng.choice([2, 3, 4]), 0)
+
+        def prod_el(sps, fill):
+            parts = []
+            for q in sps:
+                d = [np.nan] * q[0] if fill == 'nan' else rvec(rng, q[0])
+                e = space_of(q).element(d)
+                reg.add(e, q)
+                parts.append(e)
+            return parts
+        depth = rng.choice([0, 0, 1])
+        if kind in ('pso', 'diag'):
+            nr, nc = (rng.choice([(1, 1), (2, 2), (2, 3), (3, 2), (1, 3)]) if kind == 'pso' else (2, 2))
+            if kind == 'diag':
+                nr = nc = rng.choice([1, 2, 3])
+            doms = [sp() for _ in range(nc)]
+            rans = [sp() for _ in range(nr)]
+            xs = prod_el(doms, 'rand')
+            outs = prod_el(rans, 'nan' if mode == 'ip_nan' else 'rand') if mode.startswith('ip') or mode == 'bad_out' else None
+            nodes = {}
+            if kind == 'diag':
+                ops = []
+                for i in range(nr):
+                    nodes[(i, i)] = gen_tree(rng, reg, depth, doms[i], rans[i], big)
+                    ops.append(nodes[(i, i)].op)
+                D = odl.ProductSpace(*[space_of(q) for q in doms])
+                R = odl.ProductSpace(*[space_of(q) for q in rans])
+                op = odl.DiagonalOperator(*ops, domain=D, range=R)
+            else:
+                mat = [[None] * nc for _ in range(nr)]
+                for i in range(nr):
+                    for j in range(nc):
+                        if rng.random() < 0.6:
+                            nodes[(i, j)] = gen_tree(rng, reg, depth, doms[j], rans[i], big)
+                            mat[i][j] = nodes[(i, j)].op
+                D = odl.ProductSpace(*[space_of(q) for q in doms])
+                R = odl.ProductSpace(*[space_of(q) for q in rans])
+                if not nodes:
+                    nodes[(0, 0)] = gen_tree(rng, reg, depth, doms[0], rans[0], big)
+                    mat[0][0] = nodes[(0, 0)].op
+                op = odl.ProductSpaceOperator(mat, domain=D, range=R)
+            ents = [entry_term(int(i), int(j), nodes[(int(i), int(j))])
+                    for i, j in zip(op.ops.row, op.ops.col)]
+            for (i, j), o in zip(zip(op.ops.row, op.ops.col), op.ops.data):
+                assert nodes[(int(i), int(j))].op is o
+            kterm = '(PKpso %s %s %s)' % (C.lst(ents), C.lst([sp_term(q) for q in doms]), C.lst([sp_term(q) for q in rans]))
+            x_py = D.element(xs)
+            x_ids = [reg.index_of(p) for p in xs]
+            if mode == 'bad_x':
+                extra = space_of(doms[0]).element(rvec(rng, doms[0][0]))
+                reg.add(extra, doms[0])
+                x_py = odl.ProductSpace(*[space_of(q) for q in doms + [doms[0]]]).element(xs + [extra])
+                x_ids = x_ids + [reg.index_of(extra)]
+            out_py = R.element(outs) if outs is not None else None
+            out_ids = [reg.index_of(p) for p in outs] if outs is not None else None
+            if mode == 'bad_out':
+                wrong = [(q[0] + 1, 0) for q in rans]
+                wouts = prod_el(wrong, 'nan')
+                out_py = odl.ProductSpace(*[space_of(q) for q in wrong]).element(wouts)
+                out_ids = [reg.index_of(p) for p in wouts]
+        elif kind == 'broadcast':
+            dom = sp()
+            n_ops = rng.choice([1, 2, 3])
+            rans = [sp() for _ in range(n_ops)]
+            x_el = space_of(dom).element(rvec(rng, dom[0]))
+            x_ids = [reg.add(x_el, dom)]
+            outs = prod_el(rans, 'nan' if mode == 'ip_nan' else 'rand') if mode.startswith('ip') or mode == 'bad_out' else None
+            nodes = [gen_tree(rng, reg, depth, dom, r, big) for r in rans]
+            op = odl.BroadcastOperator(*[nd.op for nd in nodes])
+            kterm = '(PKbroadcast %s %s %s)' % (C.lst([nd.coq for nd in nodes]), sp_term(dom), C.lst([sp_term(q) for q in rans]))
+            x_py = x_el
+            if mode == 'bad_x':
+                x_py = space_of((dom[0] + 1, 0)).element(rvec(rng, dom[0] + 1))
+                x_ids = [reg.add(x_py, (dom[0] + 1, 0))]
+            out_py = op.range.element(outs) if outs is not None else None
+            out_ids = [reg.index_of(p) for p in outs] if outs is not None else None
+            if mode == 'bad_out':
+                wrong = [(q[0] + 1, 0) for q in rans]
+                wouts = prod_el(wrong, 'nan')
+                out_py = odl.ProductSpace(*[space_of(q) for q in wrong]).element(wouts)
+                out_ids = [reg.index_of(p) for p in wouts]
+        elif kind == 'reduction':
+            ran = sp()
+            n_ops = rng.choice([1, 2, 3])
+            doms = [sp() for _ in range(n_ops)]
+            xs = prod_el(doms, 'rand')
+            x_ids = [reg.index_of(p) for p in xs]
+            out_py, out_ids = None, None
+            if mode.startswith('ip') or mode == 'bad_out':
+                osp = (ran[0] + 1, 0) if mode == 'bad_out' else ran
+                out_py = space_of(osp).element([np.nan] * osp[0] if mode != 'ip_rand' else rvec(rng, osp[0]))
+                out_ids = [reg.add(out_py, osp)]
+            nodes = [gen_tree(rng, reg, depth, d, ran, big) for d in doms]
+            op = odl.ReductionOperator(*[nd.op for nd in nodes])
+            kterm = '(PKreduction %s %s %s)' % (C.lst([nd.coq for nd in nodes]), C.lst([sp_term(q) for q in doms]), sp_term(ran))
+            x_py = op.domain.element(xs)
+            if mode == 'bad_x':
+                extra = space_of(doms[0]).element(rvec(rng, doms[0][0]))
+                reg.add(extra, doms[0])
+                x_py = odl.ProductSpace(*[space_of(q) for q in doms + [doms[0]]]).element(xs + [extra])
+                x_ids = x_ids + [reg.index_of(extra)]
+        else:
+            n_parts = rng.choice([2, 3])
+            common = sp()
+            sps = [common] * n_parts
+            PS = odl.ProductSpace(space_of(common), n_parts)
+            idx = rng.randrange(n_parts)
+            if mode in ('bad_x', 'bad_out'):
+                mode = 'ip_nan'
+            if kind == 'proj':
+                xs = prod_el(sps, 'rand')
+                x_ids = [reg.index_of(p) for p in xs]
+                x_py = PS.element(xs)
+                op = odl.ComponentProjection(PS, idx)
+                kterm = '(PKproj %d)' % idx
+                out_py, out_ids = None, None
+                if mode.startswith('ip'):
+                    out_py = space_of(common).element([np.nan] * common[0] if mode == 'ip_nan' else rvec(rng, common[0]))
+                    out_ids = [reg.add(out_py, common)]
+            else:
+                x_py = space_of(common).element(rvec(rng, common[0]))
+                x_ids = [reg.add(x_py, common)]
+                op = odl.ComponentProjectionAdjoint(PS, idx)
+                kterm = '(PKprojadj %d %s)' % (idx, C.lst([sp_term(q) for q in sps]))
+                out_py, out_ids = None, None
+                if mode.startswith('ip'):
+                    outs = prod_el(sps, 'nan' if mode == 'ip_nan' else 'rand')
+                    out_py = PS.element(outs)
+                    out_ids = [reg.index_of(p) for p in outs]
+        store = reg.store_term()
+        from odl.operator.operator import OpDomainError, OpRangeError
+        try:
+            r = op(x_py, out=out_py) if out_py is not None else op(x_py)
+            res = _parts_result(reg, r)
+        except Exception as e:      # noqa
+            res = 'PErr %s' % classify_exc(e)
+        post = C.lst([oqs(d) for d in reg.snapshot()])
+        term = ('{| p_store := %s;\n     p_kind := %s;\n     p_x := %s; p_out := %s;\n     p_res := %s;\n     p_post := %s |}'
+                % (store, kterm, C.lst(['%d%%nat' % i for i in x_ids]),
+                   'None' if out_ids is None else '(Some %s)' % C.lst(['%d%%nat' % i for i in out_ids]), res, post))
+        cs.add(term, {'kind': kind, 'mode': mode, 'big': big, 'result': res[:80]}, (kind, mode, big, k))
+    return cs
+
+
 def correspondence(rng, tier):
     cs = C.CaseSet('trees', ['C03.Syntax', 'Gen.C03Bodies', 'C03.Poison', 'C03.Model', 'C03.Corr'], 'check', 'case')
     nsmall = 420 if tier == 'quick' else 3000
@@ -642,7 +817,7 @@ def correspondence(rng, tier):
         mode = ['oop', 'ip_nan', 'ip_rand', 'ip_nan'][k % 4]
         term, desc, key = make_case(rng, rng.choice([0, 1, 2, 2]), True, mode)
         cs.add(term, desc, key)
-    return [cs, prox_cases(rng, tier), kind_cases(), dispatch_cases()]
+    return [cs, prox_cases(rng, tier), pspace_cases(rng, tier), kind_cases(), dispatch_cases()]
 
 
 LEVEL_TEXT = ('Partial proof. Coq proves, for EVERY store, every NaN-free input, every (NaN-filled or not) content of '
